@@ -166,6 +166,12 @@ func init() {
 				mk(d(kind)+"{%= si|default() %}tail"),
 				mk(d(kind)+"{%= si|vfail() %}"),
 				mk("{%= nope|default() %}"+d(kind)+"{% if si == 1 %}{%= si|vfail() %}{% endif %}"),
+				// an included template that ends — by break, continue, exit or an error — BEFORE it has written a byte,
+				// inside a loop of the host, with deferred functions / pooled objects before, in and after it
+				mk("{% for i := 0; i < 3; i++ %}"+d(kind)+"{% include inc0 %}"+d(kind)+"{% endfor %}"+d(kind), "{% if si == 1 %}{% break %}{% endif %}never"),
+				mk("{% for i := 0; i < 2; i++ %}"+d(kind)+"{% include inc0 %}"+d(kind)+"{% endfor %}"+d(kind), d(kind)+"{% continue %}never"),
+				mk(d(kind)+"{% for i := 0; i < 2; i++ %}{% include inc0 %}{% endfor %}"+d(kind), "{% exit %}never"+d(kind)),
+				mk("{% for i := 0; i < 2; i++ %}{% include inc0 %}"+d(kind)+"{% endfor %}", "{% include inc1 %}", "{% lazybreak %}{% if si == 1 %}{% continue %}{% endif %}"),
 			)
 		}
 		// renders of many KiB (a context that grew large is still reset and its objects returned), through both reset
@@ -244,6 +250,50 @@ func init() {
 					map[string]any{"steps": steps, "event_log": log, "expected": sq.want})
 			}
 		}
+		// an acquisition that FAILS (unknown pool; the print tag swallows the error) between two uses of a context: the
+		// objects of the earlier use were returned at its Reset and are not returned again, every later object once
+		func() {
+			dyntpl.VerifResetRegistry()
+			k1, e1, p1 := regTpl("{%= si|vacquire(8) %}{%= si|vacquire(9) %}x", true)
+			k2, e2, p2 := regTpl("{%= si|vacqbad() %}y{%= si|vacqbad() %}", true)
+			k3, e3, p3 := regTpl("{%= si|vacquire(10) %}{%= si|vacqbad() %}{%= si|vacquire(12) %}z", true)
+			if e1 != nil || e2 != nil || e3 != nil || p1+p2+p3 != "" {
+				r.Internal("C18 failed-acquisition templates do not parse")
+				return
+			}
+			for mode := 0; mode < 2; mode++ {
+				ctx := dyntpl.NewCtx()
+				evReset()
+				var steps []string
+				reset := func() {
+					if mode == 1 {
+						dyntpl.ReleaseCtx(ctx)
+						ctx = dyntpl.AcquireCtx()
+						steps = append(steps, "ReleaseCtx + AcquireCtx")
+					} else {
+						ctx.Reset()
+						steps = append(steps, "ctx.Reset()")
+					}
+				}
+				okR := true
+				for _, k := range []string{k1, k2, k2, k3, k1} {
+					ctx.SetStatic("si", 1)
+					res := renderSafe(k, ctx)
+					steps = append(steps, fmt.Sprintf("render -> %q %s", res.Out, res.ErrStr()))
+					okR = okR && res.Panic == ""
+					reset()
+				}
+				log := evStr()
+				want := "acq8,acq9,rel8,rel9,acqbad,acqbad,acqbad,acqbad,acq10,acqbad,acq12,rel10,rel12,acq8,acq9,rel8,rel9"
+				r.Count(fmt.Sprintf("failed-acquisition:%d", mode), true)
+				r.Dist["failed-acquisition"]++
+				if !okR || log != want {
+					r.Violate(fmt.Sprintf("failed-acquisition mode=%d log=%s", mode, log), "after an acquisition from an unknown pool failed, pooled objects of an earlier use of the context are returned again (or later ones not exactly once)",
+						map[string]any{"templates": []string{"{%= si|vacquire(8) %}{%= si|vacquire(9) %}x", "{%= si|vacqbad() %}y{%= si|vacqbad() %}", "{%= si|vacquire(10) %}{%= si|vacqbad() %}{%= si|vacquire(12) %}z"},
+							"steps": steps, "event_log": log, "expected": want})
+				}
+			}
+		}()
 		// a pool key registered a second time (another package's init, a late registration) while a context holds
 		// objects of the first registration: every object goes back to the pool it was taken from
 		func() {
